@@ -1,12 +1,12 @@
 #!/bin/bash
 # usage: tools/recheck_seed_test.sh <seed dir with patch.diff> <name> <pytest node id>   -- re-runs one test 3x with the patch applied (netns)
 src=$1; name=$2; node=$3; wt=/tmp/rc_$name
-git -C /repo worktree remove --force $wt 2>/dev/null; rm -rf $wt
-git -C /repo worktree add -q --detach $wt HEAD || exit 2
+flock /tmp/.verif_wt.lock git -C /repo worktree remove --force $wt 2>/dev/null; rm -rf $wt
+flock /tmp/.verif_wt.lock git -C /repo worktree add -q --detach $wt HEAD || exit 2
 (cd $wt && git apply $src/patch.diff) || { echo "patch does not apply"; git -C /repo worktree remove --force $wt; exit 3; }
 ok=0
 for i in 1 2 3; do
   unshare -n bash -c "ip link set lo up; ip route add 224.0.0.0/4 dev lo 2>/dev/null; cd $wt && PYTHONPATH=$wt/src timeout 900 /venv/bin/python -m pytest -q -p no:cacheprovider '$node' > /tmp/rc_$name.$i.log 2>&1" && ok=$((ok+1))
 done
-git -C /repo worktree remove --force $wt
+flock /tmp/.verif_wt.lock git -C /repo worktree remove --force $wt
 echo "{\"name\":\"$name\",\"test\":\"$node\",\"passed_runs\":$ok,\"of\":3}"
